@@ -942,6 +942,10 @@ func TypeConforms(ctx map[ast.Variable]ast.BaseTerm, left ast.BaseTerm, right as
 	}
 	if leftTuple, ok := left.(ast.ApplyFn); ok && leftTuple.Function.Symbol == TupleType.Symbol {
 		if rightTuple, ok := right.(ast.ApplyFn); ok && rightTuple.Function.Symbol == TupleType.Symbol {
+			if len(leftTuple.Args) != len(rightTuple.Args) {
+				// fn:Tuple(A, B, C) is fn:Pair(A, fn:Pair(B, C)): tuples of different length have no common member shape.
+				return false
+			}
 			for i, leftArg := range leftTuple.Args {
 				if !TypeConforms(ctx, leftArg, rightTuple.Args[i]) {
 					return false
